@@ -232,6 +232,13 @@ UNITS = [
       props={'memsafe': ['C13'], 'ub': ['C13']},
       assumes=['plain symbolic execution of the real Parameters::group(const Group&); push_back and Group::parameter(p) are recording '
                'stubs (unit Group_parameter); group names are unique (VALID_C3D)']),
+    U('B_Group_parameter', 'contracts/bounded_group_parameter.c', 'h_B_Group_parameter', [], ['C09', 'C10', 'C13'], mode='bmc',
+      stubs={'vf_vec_Parameter_push_back': 'stubgp_push_back', 'Parameter__assign': 'stubgp_assign'},
+      unwind=5, timeout=600, level='B', object_bits=12,
+      bound='at most 3 parameters in the group, names of at most 1 character',
+      props={'memsafe': ['C13'], 'ub': ['C13']},
+      assumes=['plain symbolic execution of the real Group::parameter(const Parameter&); push_back and Parameter::operator= are '
+               'recording stubs (the store itself); the unbounded proof of the same clauses is the thorough-tier unit Group_parameter']),
     U('B_Parameter_read', 'contracts/bounded_parameter_read.c', 'h_B_Parameter_read', [], ['C02', 'C16', 'C13', 'C01'], mode='bmc',
       stubs={'c3d__readUint': 'stubv_readUint', 'c3d__readInt': 'stubv_readInt', 'c3d__readString': 'stubv_readString',
              'vf_string_assign': 'stubv_string_assign', 'c3d__readParam__uint_vsz_vint_sz': 'stubp_readParam_int',
@@ -344,6 +351,13 @@ UNITS = [
     U('model_string_ctor_cstr', 'contracts/model_self.c', 'h_model_string_ctor_cstr', ['vf_string_ctor_cstr/contract_vf_string_ctor_cstr'],
       ['C02', 'C16', 'C13', 'C18'], loops=True, model_loops=True, unwind=4, timeout=900, level='PB', object_bits=12,
       bound='C strings of at most 4096 characters'),
+] + [
+    U('B_model_vec_Frame_' + f, 'contracts/model_self_vec.c', 'h_B_model_vec_Frame_' + f, ['vf_vec_Frame_%s/contract_vf_vec_Frame_%s' % (f, f)],
+      ['C06', 'C08', 'C13'], unwind=6, timeout=900, level='B', object_bits=12,
+      bound='at most 3 stored frames and at most 3 frames after the call (the vector model has no loop contracts: loops unwound, unwinding assertions on)',
+      assumes=['the body is the C model of std::vector<Frame> (model/vf_std.h, macro VF_VEC_DEFINE_O, element hooks = the lowered Frame '
+               'constructors), not libstdc++: this unit checks the contract the Data::frame units rely on against that body'])
+    for f in ('push_back', 'resize', 'resize_fill')] + [
     U('AST_static_storage', 'extract/lower.py', '-', [], ['C18'], mode='ast',
       assumes=['static and namespace-scope variable definitions as clang reports them for the 12 translation units']),
     U('B_Points_write', 'contracts/bounded_data_write.c', 'h_B_Points_write', [], ['C01', 'C03', 'C12', 'C14', 'C13'], mode='bmc',
